@@ -162,6 +162,27 @@ Fixpoint contains (d s : bytes) : bool :=
   | _ :: r => is_prefix d s || contains d r
   end.
 
+(* stringprefix: the member a string addresses and the rest of the string.  Without a delimiter the
+   first member (in declaration order) whose discriminant is a prefix; with one, the string is cut at
+   the first delimiter and the part before it must be a discriminant *)
+Definition sp_parse (dl : bytes) (ms : list (minfo * ty)) (s : bytes) : option (nat * (minfo * ty) * bytes) :=
+  match dl with
+  | [] =>
+      match find_idx (fun m => is_prefix (m_disc (fst m)) s) ms with
+      | Some (i, m) => Some (i, m, drop (length (m_disc (fst m))) s)
+      | None => None
+      end
+  | _ =>
+      match split_first dl [] s with
+      | Some (p, rest) =>
+          match find_idx (fun m => bytes_eqb (m_disc (fst m)) p) ms with
+          | Some (i, m) => Some (i, m, rest)
+          | None => None
+          end
+      | None => None
+      end
+  end.
+
 (* generic option helpers *)
 Fixpoint mapM {A B} (f : A -> option B) (l : list A) : option (list B) :=
   match l with
